@@ -25,9 +25,17 @@ def pmul (B : Field) : List Nat → List Nat → List Nat
   | [], _ => []
   | a :: as, b => padd B (pscale B a b) (0 :: pmul B as b)
 
-/-- inverse of a non-zero base-field code by search (the base fields used here are small) -/
-def binv (B : Field) (a : Nat) : Nat :=
-  ((List.range B.q).find? (fun x => B.cmul a x == 1 % B.q)).getD 0
+/-- `a^e` in the base field by square-and-multiply -/
+def bpow (B : Field) (a : Nat) : Nat → Nat → Nat
+  | 0, _ => 1 % B.q
+  | fuel + 1, e =>
+    if e = 0 then 1 % B.q
+    else
+      let h := bpow B (B.cmul a a) fuel (e / 2)
+      if e % 2 = 1 then B.cmul a h else h
+
+/-- inverse of a non-zero base-field code: `a^(q-2)` (Fermat; the base field has `q` elements) -/
+def binv (B : Field) (a : Nat) : Nat := bpow B a 64 (B.q - 2)
 
 /-- remainder of `a` modulo `f` (`f` normalised, non-zero) -/
 def pmodAux (B : Field) (f : List Nat) (linv : Nat) : Nat → List Nat → List Nat
@@ -63,5 +71,41 @@ end Ext
 def evalAt (b : Nat) : List Nat → Nat
   | [] => 0
   | d :: ds => d + b * evalAt b ds
+
+end Givaro.Spec.GFqExt
+
+/-! ### coefficient-list instance of the `Poly1Dom` operations used by `Extension` (for the driver) -/
+namespace Givaro.Spec.GFqExt
+open Givaro.Spec.GFq
+
+/-- long division: `(quotient, remainder)` of `a` by `f` (`f` normalised, non-zero) -/
+def pdivmodAux (B : Field) (f : List Nat) (linv : Nat) : Nat → List Nat → List Nat → List Nat × List Nat
+  | 0, q, a => (q, a)
+  | fuel + 1, q, a =>
+    let a := pnorm a
+    if a.length < f.length then (q, a) else
+    let c := B.cmul (a.getLast?.getD 0) linv
+    let shift := List.replicate (a.length - f.length) 0
+    pdivmodAux B f linv fuel (padd B q (shift ++ [c])) (pnorm (psub B a (shift ++ pscale B c f)))
+
+def pdivmod (B : Field) (a f : List Nat) : List Nat × List Nat :=
+  let f := pnorm f
+  pdivmodAux B f (binv B (f.getLast?.getD 1)) (a.length + 1) [] a
+
+/-- extended Euclid: `(r0, t0, r1, t1)` with `t_i · a ≡ r_i (mod f)` -/
+def pegcdAux (B : Field) : Nat → List Nat → List Nat → List Nat → List Nat → List Nat × List Nat
+  | 0, r0, t0, _, _ => (r0, t0)
+  | fuel + 1, r0, t0, r1, t1 =>
+    if (pnorm r1).isEmpty then (r0, t0) else
+    let (q, r2) := pdivmod B r0 r1
+    pegcdAux B fuel r1 t1 r2 (psub B t0 (pmul B q t1))
+
+/-- inverse of `a` modulo `f` (reduced), `[]` when `a ≡ 0` -/
+def pinvmod (B : Field) (a f : List Nat) : List Nat :=
+  let a := pmod B a f
+  let (g, t) := pegcdAux B (f.length + 2) (pnorm f) [] a [1 % B.q]
+  match pnorm g with
+  | [c] => pmod B (pscale B (binv B c) t) f
+  | _ => []
 
 end Givaro.Spec.GFqExt
